@@ -235,7 +235,10 @@ int main(int argc, char** argv) {
                 extra += ",\"ann_shots\":[" + std::string(program->shots.first ? "1" : "0") + "," +
                          std::to_string(program->shots.second) + "]";
                 if (stage == "run") {
-                    for (int s = 0; s < shots; ++s) {
+                    bool reanalyse = job->has("reanalyse") && job->at("reanalyse").b;
+                    for (int s = 0; s < shots + (reanalyse ? 1 : 0); ++s) {
+                        if (reanalyse && s == shots)
+                            an->analyse(*program);   // analysing an already analysed and executed tree must change nothing
                         events.clear();
                         runtime::verif::gc().counter = 0;
                         cap.out.str("");
